@@ -108,7 +108,7 @@ def case(draw):
     spec = draw(system_spec())
     units = [R.render(draw(G.unit_ast(max_factors=2, mild=True, coeff=False))) if draw(st.booleans()) else draw(st.sampled_from(G.SYMBOLS)) for _ in range(6)]
     return {"spec": spec, "units": units, "vals": [draw(st.integers(1, 80)) / 8 for _ in range(3)], "warm": [draw(st.sampled_from(["energy", "force", "velocity", "pressure", "power", "length", "mass"])) for _ in range(2)],
-            "bad": draw(st.sampled_from(BAD_BASES))}
+            "bad": draw(st.sampled_from(BAD_BASES)), "spec2": draw(system_spec()), "bad_same_name": draw(st.booleans())}
 
 
 def _is_em_counterpart(d1, d2):
@@ -268,7 +268,9 @@ def judge_case(c, part):
 
             a = unyt_array(np.array(c["vals"]), uname).in_base(us.name)
             b = unyt_array(np.array(c["vals"]), uname).in_base(cold.name)
-            if not (a.units == b.units and str(a.units) == str(b.units) and np.array_equal(np.asarray(a), np.asarray(b))):
+            if not (np.all(np.isfinite(np.asarray(a))) and np.isfinite(float(a.units.base_value)) and float(a.units.base_value) != 0):
+                part.count("excluded_range")
+            elif not (a.units == b.units and str(a.units) == str(b.units) and np.array_equal(np.asarray(a), np.asarray(b), equal_nan=True)):
                 out.append(("C10:depends-on-request-history", {"unit": uname, "warm": repr(a)[:100], "cold": repr(b)[:100], "spec": spec, "warmed_with": c["warm"]}))
         except Exception:
             pass
@@ -285,19 +287,43 @@ def judge_case(c, part):
             o1 = []
             judge_unit(sysname, None, *BUILTIN[sysname], uname, c["vals"], part, o1, sysname + "+code-units", reg=reg)
             out += [(k.replace("C10:", "C10:code-units:", 1), d) for k, d in o1]
-    # inconsistent construction must be rejected
+    # the same name defined again with other base units: the name now means the new definition
+    live_spec = spec
+    if c.get("spec2") is not None:
+        spec2 = c["spec2"]
+        try:
+            us2 = make_system(spec2, name=us.name)
+            live_spec = spec2
+            part.count("system name re-used with another definition")
+            for uname in c["units"][:4]:
+                o1 = []
+                judge_unit(us2.name, us2, spec2["bases"], [u for _, u in spec2["overrides"]], uname, c["vals"], part, o1, "generated")
+                out += [(k.replace("C10:", "C10:redefined-name:", 1), dict(d, first_definition=spec, second_definition=spec2)) for k, d in o1]
+        except Exception as e:
+            out.append((f"C10:valid-system-rejected:{type(e).__name__}", {"spec": spec2, "error": str(e)[:200], "name_reused": True}))
+    # inconsistent construction must be rejected - and leave nothing behind under that name
     dim, wrong = c["bad"]
     b2 = dict(spec["bases"])
     b2[dim] = wrong
     part.ev()
+    same = bool(c.get("bad_same_name"))
+    badname = us.name if same else None
     try:
-        make_system({"bases": b2, "overrides": []})
+        made = make_system({"bases": b2, "overrides": []}, name=badname)
+        badname = made.name
         out.append((f"C10:inconsistent-system-accepted:{dim}={wrong}", {"bases": b2}))
     except IllDefinedUnitSystem:
         part.nt(("rejected", dim, wrong))
     except Exception as e:
         part.count(f"inconsistent system rejected with {type(e).__name__}")
         part.nt(("rejected", dim, wrong))
+    if same:
+        # the valid system registered under that name still answers, inside its own units
+        part.count("rejected construction under the name of a registered system")
+        for uname in c["units"][:3]:
+            o1 = []
+            judge_unit(us.name, None, live_spec["bases"], [u for _, u in live_spec["overrides"]], uname, c["vals"], part, o1, "generated")
+            out += [(k.replace("C10:", "C10:after-rejected-construction:", 1), dict(d, rejected_bases=b2, registered=live_spec)) for k, d in o1]
     return out
 
 
